@@ -332,10 +332,10 @@ impl Monitor for C08 {
         "C08"
     }
     fn gens(&self, tier: Tier) -> Vec<(&'static str, u64)> {
-        vec![("lattice", tier.pick(4320 * 150, 3 * 1440 * 1440)), ("sequences", tier.pick(75_000, 750_000)), ("flat_sizes", 1100), ("flatten", tier.pick(15_000, 150_000))]
+        vec![("lattice", tier.pick(4320 * 150, 3 * 1440 * 1440)), ("sequences", tier.pick(75_000, 750_000)), ("flat_sizes", 1100), ("large_flat_sizes", 1), ("flatten", tier.pick(15_000, 150_000))]
     }
     fn rule(&self) -> &'static str {
-        "lattice: single conv/deconv/pool layers; axis 0 enumerates (extent 1..10, kernel 1..4, stride 1..3, padding 0..3, dilation 1..3) completely, axis 1 follows a covering walk over the same 1440 tuples; configurations invalid by the standard formulas are skipped (counted); for the others: the `inputs -> outputs` line of the network's Display == closed form (conv floor((i+2p-d(k-1)-1)/s)+1, deconv (i-1)s-2p+k, pool floor((i-k)/s)+1) == shape field and nesting of the tensors forward produces, and every weight/bias/kernel gradient of the hooked backward has the shape of its parameter. sequences: random networks of depth 1..5 with all transitions, every fourth with a feedback block. flat_sizes: EVERY flat size n = 1..1100 x {conv, deconv, pool}: accepted iff n is a perfect square, then read as 1 x r x r in row-major order (index-valued input through 1x1 identity layers); network-level (dense(n) followed by the spatial layer) for n <= 150. flatten: spatial output into identity dense layer must arrive in row-major order."
+        "lattice: single conv/deconv/pool layers; axis 0 enumerates (extent 1..10, kernel 1..4, stride 1..3, padding 0..3, dilation 1..3) completely, axis 1 follows a covering walk over the same 1440 tuples; configurations invalid by the standard formulas are skipped (counted); for the others: the `inputs -> outputs` line of the network's Display == closed form (conv floor((i+2p-d(k-1)-1)/s)+1, deconv (i-1)s-2p+k, pool floor((i-k)/s)+1) == shape field and nesting of the tensors forward produces, and every weight/bias/kernel gradient of the hooked backward has the shape of its parameter. sequences: random networks of depth 1..5 with all transitions, every fourth with a feedback block. flat_sizes: EVERY flat size n = 1..1100 x {conv, deconv, pool}: accepted iff n is a perfect square, then read as 1 x r x r in row-major order (index-valued input through 1x1 identity layers); network-level (dense(n) followed by the spatial layer) for n <= 150. large_flat_sizes: r*r + d for r in {4095..100003}, d in -3..3 (lengths beyond 2^24 that single precision cannot represent), layer level. flatten: spatial output into identity dense layer must arrive in row-major order."
     }
     fn assumptions(&self) -> Vec<&'static str> {
         vec!["the Display output of Network is parsed black-box for the announced shapes", "harness built with overflow checks on"]
@@ -374,6 +374,42 @@ impl Monitor for C08 {
                 if n == 12 || n == 16 {
                     out.sample = Some(J::obj().set("flat_size", J::Int(n as i64)).set("perfect_square", J::Bool(isqrt(n) * isqrt(n) == n)));
                 }
+            }
+            "large_flat_sizes" => {
+                // perfect squares and their neighbours where single precision can no longer
+                // represent the length exactly (> 2^24) - acceptance must still be exact
+                out.key = "large flat sizes".into();
+                let lin = activation::Activation::Linear;
+                let mut n_checked = 0u64;
+                for r in [4095usize, 4096, 4097, 4099, 5000, 5001, 8191, 8193, 10007, 46340, 46341, 65535, 65537, 100003] {
+                    for d in [-3i64, -2, -1, 0, 1, 2, 3] {
+                        let n = (r * r) as i64 + d;
+                        let n = n as usize;
+                        let rr = isqrt(n);
+                        let square = rr * rr == n;
+                        for kind in ["conv", "deconv", "pool"] {
+                            n_checked += 1;
+                            let created = guard(|| match kind {
+                                "conv" => shape_dims(convolution::Convolution::create(Shape::Single(n), 1, &lin, (1, 1), (1, 1), (0, 0), (1, 1), None).verif_inputs()),
+                                "deconv" => shape_dims(deconvolution::Deconvolution::create(Shape::Single(n), 1, &lin, (1, 1), (1, 1), (0, 0), None).verif_inputs()),
+                                _ => shape_dims(maxpool::Maxpool::create(Shape::Single(n), (1, 1), (1, 1)).verif_inputs()),
+                            });
+                            match (square, created) {
+                                (false, Ok(dims)) => out.viol(&format!("transition:{}:non-square-accepted", kind), format!("a {} layer accepted a flat input of {} elements (not a perfect square) and reads it as {:?}", kind, n, dims), J::obj().set("flat_size", J::Int(n as i64))),
+                                (true, Err(m)) => out.viol(&format!("transition:{}:square-rejected", kind), format!("a {} layer rejected a flat input of {} = {} x {} elements: {}", kind, n, rr, rr, short(&m, 100)), J::obj().set("flat_size", J::Int(n as i64))),
+                                (true, Ok(dims)) => {
+                                    if dims != vec![1, rr, rr] {
+                                        out.viol(&format!("transition:{}:flat-to-spatial-order", kind), format!("{} reads a flat input of {} elements as {:?}", kind, n, dims), J::Null);
+                                    }
+                                }
+                                _ => {}
+                            }
+                        }
+                    }
+                }
+                out.evals = n_checked;
+                out.distinct = Some(n_checked);
+                out.count("large_flat_sizes_x_layer_kinds", n_checked);
             }
             "flatten" => flatten_case(&mut rng, &mut out),
             _ => panic!("unknown generator {}", gen),
